@@ -14,7 +14,7 @@ Definition run_writers (a : args) : args :=
   | Halt _ w => [[888887]; wlog w]
   | Ok (inr _) w => [[0; epoch w]; wlog w]
   | Ok (inl s0) w =>
-    let r0 := mkR s0 (len (Header.role_input_streams (r_role (sreq s0))) <=? 1) false in
+    let r0 := mkR s0 (len (Header.role_input_streams (r_role (sreq s0))) <=? 1) false false in
     (* a clone writes to the stream of its original *)
     let fix mk (l : list (list N)) (built : list wr) : list wr :=
       match l with
